@@ -108,6 +108,18 @@ example : ({ qname := "p.n", pkg := "p", name := "n", typ := "int", pos := "", n
              writes := [⟨"f", "", "incdec", .none⟩], addrs := [], reads := [⟨"f", "", "read", .none⟩] } : VarFact).disciplined = false := by
   decide
 
+/-! ## Font-level state -/
+
+/-- **a loaded font carries no mutable cache**: no struct type reachable from canvas.Font,
+canvas.FontFace or text.Shaper (inside the analysed packages) has a container field (map, sync.Map,
+sync.Pool, chan) that is mutated after construction — today there is no container field at all.
+A memo table added to the shaper or the font changes this fact. -/
+theorem font_level_state_immutable :
+    (∀ f, f ∈ fontLevelFields → f.writes = []) ∧
+    (fontLevelFields.filter (·.container)).map (·.name) = [] ∧
+    (∀ r, r ∈ fontRoots → r ∈ fontLevelTypes) := by
+  decide
+
 /-! ## Pooled sweep-line objects -/
 
 /-- **pool statelessness**: if every initialising statement after `Get` reads only fields assigned
